@@ -19,9 +19,11 @@ RULE = ('timestamps are whole hours from 2020-01-01 (index points on a 6-hour gr
         'a time-of-day bound, or more than one series; distinct by full case')
 EXPLANATION = ('theorems C13_* (coq/props/C13.v) hold for series of any length and any bounds: a single slice is exactly the filter of the rows '
                'inside the bracketed window (fast path = mask path on a sorted index), time-of-day bounds compare t mod day, a window with start '
-               'later than end is the union of the two half windows, stitching takes the rows of interval i from the join of series i..i+n-1 with '
-               'each timestamp at most once, and df_unslice followed by stitching gives the frame back; pandas label slicing, masks, concat and '
-               'sort_index are modelled and compared with the model on every generated case')
+               'later than end is the union of the two half windows; stitching with ub lists, lb lists and lb+ub lists takes the rows of interval i '
+               'from the join of series i..i+n-1, each timestamp at most once for "(]" brackets; df_unslice recovers for bound m exactly the part '
+               'of series m with u(m-n) < t <= u(m) (column j of interval i goes to bound i+j) and stitching the recovered series again gives the '
+               'frame back (general theorem: any k series without NaN values, strictly increasing bounds, any n in 1..k); pandas label slicing, '
+               'masks, concat and sort_index are modelled and compared with the model on every generated case')
 TRUSTED = ['modelled, not verified: pandas 3.0 df[lb:ub] on a sorted DatetimeIndex, boolean-mask selection, DatetimeIndex.time, '
            'pd.concat (rows, and axis=1 outer join), sort_index, dictable.listby grouping in df_unslice (compared with the model on every run)',
            'harness/props/c13.py rendering of inputs and observations']
@@ -399,9 +401,13 @@ def shrink(case):
 
 LEVEL_TEXT = ('machine-checked Coq theorems (C13_*, series of any length, any bounds, any day length): single slice = filter of the rows inside the '
               'bracketed window for all four brackets (pandas fast path proved equal to the mask path on a sorted index), time-of-day bounds on '
-              't mod day, wrap-around window = union of the two half windows, stitching takes interval i from the join of series i..i+n-1 with every '
-              'timestamp at most once, df_unslice then stitch is the identity; the model is compared in Coq with the real df_slice / df_unslice on '
-              'thousands of generated cases and a property-text oracle re-derives every expected row from the real outputs')
+              't mod day, wrap-around window = union of the two half windows, stitching (ub lists, lb lists, lb+ub lists, decreasing lists) takes '
+              'interval i from the join of series i..i+n-1 with every timestamp at most once, df_unslice returns for each bound exactly the visible '
+              'part of its series and df_unslice then stitch is the identity (general theorem C13_unslice_roundtrip, no bound on k, n or lengths); '
+              'the model is compared in Coq with the real df_slice / df_unslice on thousands of generated cases and a property-text oracle '
+              're-derives every expected row from the real outputs')
 LEVEL_NOTE = ('trusted: Coq kernel/vm_compute; modelled not verified: pandas label slicing / masks / concat / sort_index (compared on every run). '
-              'The wrap-around window and df_unslice of a stitched Series are modelled as repaired by fixes/C13.patch')
+              'Hypotheses of the df_unslice theorems (shown satisfiable by C13_unslice_example): strictly increasing timestamps and bounds, '
+              'non-NaN values (df_unslice drops NaN rows), as many bounds as series, 1 <= n <= k. The wrap-around window, the n-column join and '
+              'df_unslice of a stitched Series are modelled as repaired (fix commits a7d160b, acd8f1e)')
 TECHNIQUE = 'Coq proof (induction over sorted lists) over a transcribed model + differential correspondence in vm_compute + property-text oracle'
